@@ -349,3 +349,55 @@ def c15_autocorr(kind, data, nodata=None, data2=None, layout=None):
         refs = [ref, _pearson_meanfill(data2)]
     bad = [(g, r) for g, r in zip(got, refs) if not (abs(g - r) <= 1e-5 * max(1.0, abs(r)))]
     return {"violates": bool(bad), "got": got, "expected": refs}
+
+
+# ------------------------------------------------------------------ C16
+def c16_do_mean(kind, dtype=None, pixels=None, zones=None, nz=None, nodata=None, z_nodata=None, n=None, s=None, p=None, acc=None):
+    from hdc.algo.ops.zonal import do_mean
+    kw = {} if dtype is None else {"out_dtype": np.dtype(dtype).type}
+    out_dt = np.dtype(dtype or "float32")
+    if kind == "exact":
+        px = np.array(pixels, dtype="int16")
+        zs = np.array(zones, dtype="uint8" if 0 <= z_nodata <= 255 else "int16")
+        res = do_mean(px, zs, nz, nodata, z_nodata, **kw)
+        bad = []
+        for t in range(px.shape[0]):
+            for k in range(nz):
+                sel = (zs == k) & (px[t] != nodata)
+                cnt = int(sel.sum())
+                if int(res[t, k, 1]) != cnt:
+                    bad.append((t, k, "count", float(res[t, k, 1]), cnt))
+                if cnt == 0:
+                    if not np.isnan(res[t, k, 0]):
+                        bad.append((t, k, "empty zone must be NaN", float(res[t, k, 0])))
+                else:
+                    ref = px[t][sel].astype("float64").mean()
+                    if abs(float(res[t, k, 0]) - ref) > 1e-6 * max(1.0, abs(ref)):
+                        bad.append((t, k, "mean", float(res[t, k, 0]), float(ref)))
+        if str(res.dtype) != str(out_dt):
+            bad.append(("dtype", str(res.dtype)))
+        return {"violates": bool(bad), "bad": bad[:5]}
+    if kind == "count":
+        # one zone with n+2 valid pixels of value 3: count must be n+2, mean 3
+        npx = int(n) + 2
+        px = np.full((1, 1, npx), 3, dtype="int16")
+        zs = np.zeros((1, npx), dtype="uint8")
+        res = do_mean(px, zs, 1, -9999, 255, **kw)
+        eps = float(np.finfo(out_dt).eps)
+        ok = abs(float(res[0, 0, 1]) - npx) <= eps * npx and abs(float(res[0, 0, 0]) - 3.0) <= 4 * eps * 3.0
+        return {"violates": not ok, "count": float(res[0, 0, 1]), "expected_count": npx, "mean": float(res[0, 0, 0])}
+    if kind == "sum":
+        # reach a partial sum near |s| with pixels of +-32767 then add p: mean must be accurate to output precision
+        big = 32767 if s >= 0 else -32767
+        k = max(1, min(int(abs(s)) // 32767, 25_000_000))
+        vals = np.full(k + 1, big, dtype="int16")
+        vals[-1] = int(p)
+        px = vals.reshape(1, 1, -1)
+        zs = np.zeros((1, k + 1), dtype="uint8")
+        res = do_mean(px, zs, 1, -9999, 255, **kw)
+        ref = vals.astype("float64").mean()
+        eps = float(np.finfo(out_dt).eps)
+        ok = abs(float(res[0, 0, 0]) - ref) <= 4 * eps * abs(ref) and float(res[0, 0, 1]) == k + 1 or \
+            (abs(float(res[0, 0, 0]) - ref) <= 4 * eps * abs(ref) and abs(float(res[0, 0, 1]) - (k + 1)) <= eps * (k + 1))
+        return {"violates": not ok, "mean": float(res[0, 0, 0]), "expected": float(ref), "count": float(res[0, 0, 1]), "pixels": k + 1}
+    return {"violates": False}
